@@ -92,6 +92,7 @@ def check(run):
     run.rule('D2b', 'padding is applied to a copy: the cell\'s own bits keep their length', 8)
     run.rule('D4', 'depth = 0 without references else 1 + max(child depths); accepted iff depth <= 1023', 100)
     run.rule('D5', 'calculate_representation_hash() recomputes exactly the cached hash', 3)
+    run.rule('D8', 'an ordinary cell whose children carry level masks (pruned sub-trees below) hashes d1 = r + 32*(union of the children\'s masks)', 30)
     run.rule('D6', '__eq__ is equality of representation hashes; __hash__ is an int function of that hash only', 4)
     run.rule('D7', 'hash/depth/level fields are written only while constructing; every route (end_cell, to_cell, copy, begin_parse().to_cell()) re-derives the same hash', 4)
     # cells parsed from a bag that carries stored hashes (also on exotic cells): the parser must skip them and compute hash/depth/type from the content
@@ -187,6 +188,10 @@ def check(run):
                         run.fail('D4', 'Cell.__init__', f'child depths {depths}: stored depth / stream differ from 1+max', where, witness=dict(depths=depths))
                 elif vals == tuple(range(r)):
                     run.ok('D4', f'max[r={r},base={base}]')
+
+    # ---- D8 ordinary cells above pruned sub-trees: the level part of d1 is the union of the children's level masks
+    from .C02 import ordinary_mask_union
+    ordinary_mask_union(run, prog, 'D8', where, thorough)
 
     # ---- D5 recomputed representation
     for b, depths in ((0, []), (5, [2]), (16, [0, 7, 3])):
@@ -300,6 +305,29 @@ def check(run):
             run.check(same, 'D7', name if not same else f'route:{name}', 'same hashed stream as the source cell' if same else 'derived cell hashes a different stream', where)
         except RaiseEx as e:
             run.fail('D7', name, f'raises {e}', where)
+        run.evaluations += 1
+    # the cached hash stays the hash of the cell's content whatever is done with objects derived from it: after filling a derived builder and
+    # reading a derived slice, the explicitly recomputed representation is still the cached one
+    it = mk(prog)
+    kid, extra = cm.forge_ordinary_child(it, 0, depth=4), cm.forge_ordinary_child(it, 1, depth=2)
+    src = cm.new_cell(it, cm.tvm_bits(it, cm.data_bits(13)), [kid])
+    before = repr(hash_parts(src))
+    uses = {
+        'to_builder() then store_ref / store_uint': lambda: cm.call_method(it, cm.call_method(it, cm.call_method(it, src, 'to_builder'), 'store_ref', extra), 'store_uint', K(5), K(7)),
+        'begin_parse() then load_bits / load_ref': lambda: (lambda sl: (cm.call_method(it, sl, 'load_bits', K(9)), cm.call_method(it, sl, 'load_ref')))(cm.call_method(it, src, 'begin_parse')),
+        'copy() then to_builder().store_ref': lambda: cm.call_method(it, cm.call_method(it, cm.call_method(it, src, 'copy'), 'to_builder'), 'store_ref', extra),
+        'begin_parse().to_builder().store_ref': lambda: cm.call_method(it, cm.call_method(it, cm.call_method(it, src, 'begin_parse'), 'to_builder'), 'store_ref', extra),
+    }
+    for name, fn in uses.items():
+        try:
+            fn()
+            h2 = cm.call_method(it, src, 'calculate_representation_hash')
+            now = repr(cm.flatten_bytes(list(h2.a))) if isinstance(h2, Term) and h2.op == 'sha256' else repr(h2)
+            same = now == before and repr(hash_parts(src)) == before
+            run.check(same, 'D7', f'Cell hash after {name.split(" ")[0]}' if not same else f'stable:{name}',
+                      f'after {name}: the recomputed representation of the source cell ' + ('equals' if same else 'DIFFERS from') + ' its cached hash', where)
+        except RaiseEx as e:
+            run.fail('D7', f'Cell hash after {name.split(" ")[0]}', f'{name}: raises {e}', where)
         run.evaluations += 1
     e = it.call(it.getattr(prog.cls('Cell'), 'empty'), [], {})
     ok, why = stream_matches(hash_parts(e), expect_stream(0, []), [])
